@@ -990,6 +990,23 @@ func (g *c16Gen) finalize(i int, seed uint64) *c16Scenario {
 	return sc
 }
 
+// c16DropFeatures removes the features that start with one of the prefixes
+func c16DropFeatures(fs []string, prefixes ...string) []string {
+	out := []string{}
+	for _, f := range fs {
+		drop := false
+		for _, p := range prefixes {
+			if len(f) >= len(p) && f[:len(p)] == p {
+				drop = true
+			}
+		}
+		if !drop {
+			out = append(out, f)
+		}
+	}
+	return out
+}
+
 // dying: a target pending deletion, by what still holds it: (i) our finalizer, (ii) our finalizer plus a
 // garbage-collector finalizer (foreground / orphan propagation), (iii) only a foreign finalizer (ours is
 // already gone); controllers with and without a finalize hook; selected and unselected targets
@@ -1061,10 +1078,37 @@ func (g *c16Gen) dying(i int, seed uint64) *c16Scenario {
 		fins = c16A{"example.com/hold"}
 		c16AddFeature(sc, "dying-foreign-only")
 	}
+	unselected := r.Chance(2, 5)
+	alive := false
+	switch r.Intn(6) {
+	case 0:
+		// a leftover finalizer: ours is on an unmatched target but the controller has no finalize hook (any more);
+		// alive or pending deletion, the finalizer has to go in that sync
+		sc.Ctl.Finalize, unselected, alive = false, true, r.Bool()
+		fins = c16A{ours}
+		if r.Bool() {
+			fins = c16A{"example.com/hold", ours}
+		}
+		sc.Features = c16DropFeatures(sc.Features, "dying-", "with-finalize-hook", "without-finalize-hook")
+		c16AddFeature(sc, "without-finalize-hook")
+		c16AddFeature(sc, "leftover-finalizer-unmatched")
+	case 1:
+		// deleted while unmatched with foreground / orphan propagation: the finalize hook is still owed
+		sc.Ctl.Finalize, unselected = true, true
+		fins = c16A{ours, []string{"foregroundDeletion", "orphan"}[r.Intn(2)]}
+		sc.Hook.FinalizedAlways = r.Chance(2, 3)
+		if sc.Hook2 != nil {
+			sc.Hook2.FinalizedAlways = sc.Hook.FinalizedAlways
+		}
+		sc.Features = c16DropFeatures(sc.Features, "dying-", "with-finalize-hook", "without-finalize-hook")
+		c16AddFeature(sc, "with-finalize-hook")
+		c16AddFeature(sc, "dying-ours-gc")
+		c16AddFeature(sc, "gc-finalizer-unmatched")
+	}
 	ref := c16TargetRef(sc.Target)
 	set := ref
 	set.Op, set.Data = "meta", c16J{"finalizers": fins}
-	if r.Chance(1, 4) {
+	if unselected {
 		set.Data["labels"] = c16J{"managed": "no"}
 		c16AddFeature(sc, "dying-unselected")
 	} else {
@@ -1074,7 +1118,10 @@ func (g *c16Gen) dying(i int, seed uint64) *c16Scenario {
 	del := ref
 	del.Op = "deleting"
 	rs := c16RoundSpec{PreOps: []c16ExtOp{del}}
-	if r.Chance(1, 5) {
+	if alive {
+		c16AddFeature(sc, "leftover-on-live-target")
+		sc.Rounds = []c16RoundSpec{{}, {}}
+	} else if r.Chance(1, 5) {
 		// one live round first
 		sc.Rounds = []c16RoundSpec{{}, rs, {}}
 	} else {
